@@ -309,11 +309,66 @@ def eval_ir_lifting(ctx, R="C13.5"):
                     break
             if unsupported:
                 if not unsupported.startswith("panics"):
-                    ctx.note("ast::%s::%s: conversion outside the evaluator's subset (%s)" % (enum, vname, unsupported))
+                    ctx.missing(R, "lifting/%s::%s/evaluation" % (enum, vname), "the conversion uses a construct the evaluator cannot interpret (fail closed): %s" % unsupported)
                 continue
             decided += 1
             ctx.check(R, "lifting/%s::%s/children-keep-their-places" % (enum, vname), not problems, "; ".join(sorted(set(problems))[:2]) or "every child is converted into the field of the same name, lists in order (%d worlds)" % worlds, site(IRL, fn))
     ctx.floor(R, "node kinds whose conversion was evaluated", decided, 10)
+    # one level deeper: an operator applied to an operator.  The conversion of `op1 (a op2 b)` and `(a op2 b) op1 c` is the
+    # node of op1 over the node of op2 over the converted a, b - for every pair of operators (no rewriting of a negated
+    # comparison into `the complementary one`, no re-association)
+    fn = w.methods.get(("Expression", "try_lift"), (None,))[0]
+    pre = a10.enum_def(ASTF_, "ExpressionPrefixOpcode")
+    inf = a10.enum_def(ASTF_, "ExpressionInfixOpcode")
+    if fn is not None and pre and inf:
+        def marker(tag):
+            out = ("O", "lifted:" + tag, ())
+            return ("O", "child:" + tag, (("try_lift", ("PY", lambda *a, out=out: S("Ok", out))), ("is_number", False))), out
+
+        def meta():
+            return ("O", "meta", (("try_lift", ("PY", lambda *a: S("Ok", O("lifted-meta")))),))
+
+        def ir_shape(x, depth=0):
+            if isinstance(x, tuple) and x and x[0] == "O" and x[1].startswith("lifted:"):
+                return x[1][7:]
+            if isinstance(x, tuple) and len(x) > 3 and x[0] == "V" and depth < 5:
+                ops = [v_[2] for k_, v_ in x[3].items() if isinstance(v_, tuple) and v_ and v_[0] == "E"]
+                kids = [ir_shape(v_, depth + 1) for k_, v_ in sorted(x[3].items()) if k_ in ("lhe", "rhe")]
+                return (x[2], tuple(ops), tuple(kids))
+            return "?"
+
+        wrong, nw, unsup = [], 0, None
+        for o2 in inf:
+            a_, la = marker("a")
+            b_, lb = marker("b")
+            inner = V("Expression", "InfixOp", meta=meta(), lhe=a_, infix_op=E("ExpressionInfixOpcode", o2), rhe=b_)
+            want_inner = ("InfixOp", (o2,), ("a", "b"))
+            tops = [("PrefixOp", o1, V("Expression", "PrefixOp", meta=meta(), prefix_op=E("ExpressionPrefixOpcode", o1), rhe=inner), ("PrefixOp", (o1,), (want_inner,))) for o1 in pre]
+            for o1 in inf:
+                c_, lc = marker("c")
+                tops.append(("InfixOp", o1, V("Expression", "InfixOp", meta=meta(), lhe=inner, infix_op=E("ExpressionInfixOpcode", o1), rhe=c_), ("InfixOp", (o1,), (want_inner, "c"))))
+                c2_, lc2 = marker("c")
+                tops.append(("InfixOp", o1, V("Expression", "InfixOp", meta=meta(), lhe=c2_, infix_op=E("ExpressionInfixOpcode", o1), rhe=inner), ("InfixOp", (o1,), ("c", want_inner))))
+            for kind, o1, node, want in tops:
+                try:
+                    res = w.call_fn(fn, [node, ("T", ()), Sink()])
+                except Unsupported as u:
+                    unsup = str(u)
+                    break
+                except Panic as p_:
+                    wrong.append("%s %s over %s: panics (%s)" % (kind, o1, o2, p_))
+                    continue
+                nw += 1
+                got = ir_shape(res[2][0]) if isinstance(res, tuple) and len(res) > 2 and res[1] == "Ok" else "error"
+                if got != want and len(wrong) < 4:
+                    wrong.append("`%s` over `a %s b` is converted to %s" % (o1, o2, got))
+            if unsup:
+                break
+        if unsup:
+            ctx.missing(R, "lifting/Expression/nested-operators/evaluation", "cannot be evaluated (fail closed): %s" % unsup)
+        else:
+            ctx.floor(R, "operator pairs whose conversion was evaluated", nw, 500)
+            ctx.check(R, "lifting/Expression/nested-operators-kept", not wrong, "; ".join(wrong[:3]) or "every prefix / infix operator over every infix operator is converted node by node (%d pairs)" % nw, site(IRL, fn))
 
 
 def eval_declaration_split(ctx, R="C13.1"):
@@ -345,7 +400,7 @@ def eval_declaration_split(ctx, R="C13.1"):
     }
     mh = []
     mh.append(("O", "meta", (("clone", ("PY", lambda: mh[0])),)))
-    xt = ("O", "declared-type", (("clone", ("PY", lambda: xt)),))
+    xt = None
     OP, OP2 = O("operator-written"), O("tuple-operator-written")
 
     def sym(nm, init):
@@ -368,26 +423,34 @@ def eval_declaration_split(ctx, R="C13.1"):
             return ("assign-tuple", tuple(names or ()), "op" if st[3].get("op") is OP2 else "other-op", st[3].get("rhe")[1] if isinstance(st[3].get("rhe"), tuple) else None)
         return (st[2],)
 
+    from finfun import E
+
     ea, ec, et = O("init-a"), O("init-c"), O("tuple-init")
-    try:
-        r1 = w.call_fn(f1, [mh[0], xt, ("L", (sym("a", ea), sym("b", None), sym("c", ec))), OP])
-        ti = S("TupleInit", ("T", (OP2, et))) if "TupleInit" in w.structs else None
-        r2 = w.call_fn(f2, [mh[0], xt, ("L", (sym("a", None), sym("b", None))), S("Some", ti)])
-        r3 = w.call_fn(f2, [mh[0], xt, ("L", (sym("a", None), sym("b", None))), NONE])
-    except (Unsupported, Panic) as u:
-        w.stubs = {}
-        return ctx.note("ast_shortcuts::split_declaration_*: outside the evaluator's subset (%s)" % u)
-    w.stubs = {}
 
     def block(r):
         return [shape(x) for x in (listed(r[3].get("initializations")) or [])] if isinstance(r, tuple) and len(r) > 3 and r[0] == "V" and r[2] == "InitializationBlock" else None
 
     want1 = [("declare", "a"), ("assign", "a", "op", "init-a"), ("declare", "b"), ("declare", "c"), ("assign", "c", "op", "init-c")]
-    g1 = block(r1)
-    ctx.check(R, "ast_shortcuts::split_declaration_into_single_nodes/expansion", g1 == want1 and r1[3].get("xtype") is xt, "`T a = e1, b, c = e3` expands to %s; expected declare a, a op e1, declare b, declare c, c op e3 (each initialiser directly after its own declaration, with the operator written)" % (g1,), site(SHF, f1))
     want2 = [("declare", "a"), ("declare", "b"), ("assign-tuple", ("a", "b"), "op", "tuple-init")]
-    g2, g3 = block(r2), block(r3)
-    ctx.check(R, "ast_shortcuts::split_declaration_into_single_nodes_and_multi_substitution/expansion", g2 == want2 and g3 == want2[:2], "`T (a, b) op e` expands to %s, without initialiser to %s; expected declare a, declare b, (a, b) op e with the operator written" % (g2, g3), site(SHF, f2))
+    bad1, bad2 = [], []
+    # for every declared type: the expansion does not depend on it
+    for tname, xt in (("var", E("VariableType", "Var")), ("signal", S("Signal", E("SignalType", "Intermediate"), ("L", ()))), ("component", E("VariableType", "Component"))):
+        try:
+            r1 = w.call_fn(f1, [mh[0], xt, ("L", (sym("a", ea), sym("b", None), sym("c", ec))), OP])
+            ti = S("TupleInit", ("T", (OP2, et))) if "TupleInit" in w.structs else None
+            r2 = w.call_fn(f2, [mh[0], xt, ("L", (sym("a", None), sym("b", None))), S("Some", ti)])
+            r3 = w.call_fn(f2, [mh[0], xt, ("L", (sym("a", None), sym("b", None))), NONE])
+        except (Unsupported, Panic) as u:
+            w.stubs = {}
+            return ctx.missing(R, "ast_shortcuts::split_declaration/evaluation", "the declaration shortcuts use a construct the evaluator cannot interpret (fail closed): %s" % u)
+        g1, g2, g3 = block(r1), block(r2), block(r3)
+        if not (g1 == want1 and r1[3].get("xtype") == xt):
+            bad1.append("%s a = e1, b, c = e3 expands to %s" % (tname, g1))
+        if not (g2 == want2 and g3 == want2[:2]):
+            bad2.append("%s (a, b) op e expands to %s, without initialiser to %s" % (tname, g2, g3))
+    w.stubs = {}
+    ctx.check(R, "ast_shortcuts::split_declaration_into_single_nodes/expansion", not bad1, "; ".join(bad1[:2]) or "`T a = e1, b, c = e3` expands to declare a, a op e1, declare b, declare c, c op e3 for every declared type (each initialiser directly after its own declaration, with the operator written)", site(SHF, f1))
+    ctx.check(R, "ast_shortcuts::split_declaration_into_single_nodes_and_multi_substitution/expansion", not bad2, "; ".join(bad2[:2]) or "`T (a, b) op e` expands to declare a, declare b, (a, b) op e with the operator written, for every declared type", site(SHF, f2))
 
 
 def run(ctx):
